@@ -17,20 +17,21 @@ package keeper
 
 // ---- aggregation (C06) ----
 // hexnum(s): numeric value of s read as a base-16 numeral; ishex(s): s is an optionally signed, non-empty
-// string of base-16 digits (what big.Int.SetString(s, 16) accepts). Powers are whole tokens.
+// string of base-16 digits (what big.Int.SetString(s, 16) accepts); strip0x(s): s without a leading 0x. Powers are
+// whole tokens.
 
 //@ define tot(rs, n) = sum j in [0, n) :: rs[j].Power
 
 //@ func (k Keeper).WeightedMedian(ctx, reports, metaId) (agg, err)
 //@ requires [non_empty] len(reports) > 0
-//@ requires [values_are_hex] forall j in [0, len(reports)) :: ishex(reports[j].Value)
+//@ requires [values_are_hex] forall j in [0, len(reports)) :: ishex(strip0x(reports[j].Value))
 //@ requires [one_report_per_reporter] forall a in [0, len(reports)) :: forall b in [0, len(reports)) :: a != b ==> reports[a].Reporter != reports[b].Reporter
 //@ requires [each_power_at_least_one_token_and_below_2_63] forall j in [0, len(reports)) :: 1 <= reports[j].Power && reports[j].Power < 9223372036854775808
 //@ requires [total_power_below_2_63] tot(reports, len(reports)) < 9223372036854775808
 //@ ensures [no_error] err == nil && agg != nil
 //@ ensures [reports_are_a_rearrangement] forall j in [0, len(reports)) :: exists m in [0, len(reports)) :: reports[j] == old(reports[m])
 //@ ensures [every_original_report_kept] forall m in [0, len(reports)) :: exists j in [0, len(reports)) :: reports[j] == old(reports[m])
-//@ ensures [sorted_by_numeric_value] forall a in [0, len(reports)) :: forall b in [0, len(reports)) :: a < b ==> hexnum(reports[a].Value) <= hexnum(reports[b].Value)
+//@ ensures [sorted_by_numeric_value] forall a in [0, len(reports)) :: forall b in [0, len(reports)) :: a < b ==> hexnum(strip0x(reports[a].Value)) <= hexnum(strip0x(reports[b].Value))
 //@ ensures [chosen_index_in_range] agg.AggregateReportIndex < len(reports)
 //@ ensures [value_and_reporter_of_chosen_report] agg.AggregateValue == reports[agg.AggregateReportIndex].Value && agg.AggregateReporter == reports[agg.AggregateReportIndex].Reporter
 //@ ensures [strictly_below_holds_less_than_half] 2 * tot(reports, agg.AggregateReportIndex) < tot(reports, len(reports))
@@ -39,7 +40,7 @@ package keeper
 //@ ensures [lists_every_report_once] len(agg.Reporters) == len(reports) && forall j in [0, len(reports)) :: agg.Reporters[j] != nil && agg.Reporters[j].Reporter == reports[j].Reporter && agg.Reporters[j].Power == reports[j].Power && agg.Reporters[j].BlockNumber == reports[j].BlockNumber
 //@ ensures [meta_fields] agg.MetaId == metaId && agg.QueryId == reports[agg.AggregateReportIndex].QueryId && agg.MicroHeight == reports[agg.AggregateReportIndex].BlockNumber
 //@ loop 0 "for _, r := range reports"
-//@ loop 0 invariant [parsed_values] forall j in [0, $i) :: has(values, reports[j].Reporter) && values[reports[j].Reporter] == 1000000000000000000 * hexnum(reports[j].Value)
+//@ loop 0 invariant [parsed_values] forall j in [0, $i) :: has(values, reports[j].Reporter) && values[reports[j].Reporter] == 1000000000000000000 * hexnum(strip0x(reports[j].Value))
 //@ loop 1 "for _, r := range reports"
 //@ loop 1 invariant [total_so_far] totalReporterPower == 1000000000000000000 * tot(reports, $i) && tot(reports, $i) >= $i
 //@ loop 1 invariant [reporters_so_far] len(medianReport.Reporters) == $i && forall j in [0, $i) :: allocated(medianReport.Reporters[j]) && medianReport.Reporters[j].Reporter == reports[j].Reporter && medianReport.Reporters[j].Power == reports[j].Power && medianReport.Reporters[j].BlockNumber == reports[j].BlockNumber
